@@ -57,6 +57,10 @@ class Leafx(Leaf):
     """Type identifier prefix-related to u.leaf; usable wherever a Leaf is."""
     __xpmid__ = "u.leafx"
 
+    def __len__(self):
+        # a user class may well be an (empty) collection: configuration and runtime object are then falsy
+        return 0
+
 
 class Box(Config):
     __xpmid__ = "u.box"
@@ -142,6 +146,15 @@ class JobOut(Task):
         LOG.append(("body", self))
 
 
+class JobX(Job):
+    """A task that can be used as a task-typed value *and* defines task_outputs (its own object is then marked by submit(), besides
+    the output configuration)."""
+    __xpmid__ = "u.jobx"
+
+    def task_outputs(self, dep):
+        return dep(Out(v=self.x))
+
+
 class JobMark(Task):
     """A task whose output is one of its own (already sealed and identified) parameter configurations, marked as
     depending on the task (used by the `marked own parameter` family of C03)."""
@@ -191,6 +204,9 @@ class PreT(LightweightTask):
     leaf: Param[Optional[Leaf]] = None
     h: Param[Optional[Holder]] = None
 
+    def __len__(self):
+        # falsy for even k (also the default)
+        return self.k % 2
 
     def execute(self):
         LOG.append(("exec", self))
@@ -202,6 +218,8 @@ class InitT(LightweightTask):
     k: Param[int] = 0
     h: Param[Optional[Holder]] = None
 
+    def __bool__(self):
+        return self.k % 2 == 1
 
     def execute(self):
         LOG.append(("exec", self))
